@@ -764,6 +764,7 @@ def c02(ctx):
                     tail = rng.choice([0, 1, 2])
                     cases.append(case(tc, ts, tail=tail))
                     meta.append((conv["name"], f[5] + " (stream cut after the field)", v, tail))
+    n_model = len(cases)        # the cases from here on are too large for the model run
     # a large message made of nested over-declared arrays and one of cap size
     big = bytes.fromhex(convs[0]["client"])
     for tail in (0, 1, 2):
@@ -772,17 +773,37 @@ def c02(ctx):
         meta.append(("nested-65535-arrays", "Metadata.topics", 65535, tail))
         cases.append(case((struct.pack(">i", CAP) + big[4:]).hex(), "", tail=tail))
         meta.append(("size-cap-short-stream", "size", CAP, tail))
+    # very many small units at two sizes (N and 4N), judged by the ratio (the cost of a unit must not grow with the units
+    # before it): pipelined ApiVersions v0 exchanges, a Metadata v0 request naming N topics, N unanswered requests
+    def api_versions(k, corr):
+        req = struct.pack(">hhih", 18, 0, corr, 2) + b"cl"
+        resp = struct.pack(">ihi", corr, 0, 0)
+        return struct.pack(">i", len(req)) + req, struct.pack(">i", len(resp)) + resp
+    many = []
+    for nsmall in ((1500, 6000) if quick else (10000, 40000)):
+        pairs = [api_versions(k, k + 1) for k in range(nsmall)]
+        many.append(("many-exchanges", nsmall, case(b"".join(p[0] for p in pairs).hex(), b"".join(p[1] for p in pairs).hex())))
+        many.append(("many-unanswered-requests", nsmall, case(b"".join(p[0] for p in pairs).hex(), "")))
+        body = struct.pack(">hhih", 3, 0, 7, 2) + b"cl" + struct.pack(">i", nsmall) + b"".join(struct.pack(">h", 2) + b"t%d" % (k % 10) for k in range(nsmall))
+        rbody = struct.pack(">iii", 7, 0, 0)
+        many.append(("many-topics", nsmall, case((struct.pack(">i", len(body)) + body).hex(), (struct.pack(">i", len(rbody)) + rbody).hex())))
+    for shape, nsmall, c in many:
+        cases.append(c)
+        meta.append(("scaling:" + shape, shape, nsmall, 0))
     res = []
     B = 400
     for k in range(0, len(cases), B):
         res += run(ctx, cases[k:k + B], mode="cost", timeout=300, limit_kb=6 * 1024 * 1024)
     nviol, worst = 0, (0, None)
+    scaling = {}
     for c, r, m in zip(cases, res, meta):
         n = len(c["c"]) // 2 + len(c["s"]) // 2
         ctx.count_case(("kafka-c02",) + m, True, "kafka-cost-tail%d" % m[3])
         why = None
         if abnormal(r):
             why = "did not return normally (%s/%s)" % ((r or {}).get("co"), (r or {}).get("so"))
+        elif str(m[0]).startswith("scaling:"):
+            scaling.setdefault(m[1], {})[m[2]] = (r["alloc"], r["cpu_us"], c)
         elif r["alloc"] > ALLOC_BUDGET(n):
             why = "allocated %d bytes for %d bytes of input (budget %d)" % (r["alloc"], n, ALLOC_BUDGET(n))
         elif r["cpu_us"] > CPU_BUDGET_US(n):
@@ -795,10 +816,25 @@ def c02(ctx):
             if nviol < 3:
                 ctx.violation(raw_replay(c, "%s = %d, tail %d: %s" % (m[1], m[2], m[3], why), "vh-kafka cost", conversation=m[0]))
             nviol += 1
+    ratios = {}
+    for shape, by_size in sorted(scaling.items()):
+        if len(by_size) != 2:
+            continue
+        (n1, a), (n2, b) = sorted(by_size.items())
+        ratios[shape] = {"units": [n1, n2], "alloc": [a[0], b[0]], "cpu_us": [a[1], b[1]]}
+        why = None
+        if b[0] > 6 * a[0] + (64 << 20):
+            why = "%d units allocate %d bytes, %d units %d bytes: the cost of a unit grows with the units before it" % (n1, a[0], n2, b[0])
+        elif b[1] > 8 * a[1] + 1500000:
+            why = "%d units take %d us of CPU, %d units %d us: the cost of a unit grows with the units before it" % (n1, a[1], n2, b[1])
+        if why:
+            ctx.violation(raw_replay(b[2], "%s: %s" % (shape, why), "vh-kafka cost"))
+            nviol += 1
+    ctx.cov["kafka_c02_scaling"] = ratios
     ctx.sample({"kind": "kafka-cost", "cases": len(cases), "largest_alloc_bytes": worst[0], "at": list(worst[1]) if worst[1] else None})
     # the same inputs through the model (outcome classes and items agree => the model's cost bound speaks about them)
-    res_run = run(ctx, cases[:-6], mode="run") if quick else run(ctx, cases[:-6], mode="run")
-    report_K(ctx, "c02", cases[:-6], res_run, sample=500 if quick else 4000)
+    res_run = run(ctx, cases[:n_model], mode="run")
+    report_K(ctx, "c02", cases[:n_model], res_run, sample=500 if quick else 4000)
     return nviol
 
 
